@@ -31,14 +31,15 @@ import (
 const base = "github.com/snower/slock/simrt/"
 
 var swaps = map[string][2]string{
-	"sync":        {"sync", base + "ssync"},
-	"sync/atomic": {"atomic", base + "satomic"},
-	"time":        {"time", base + "stime"},
-	"net":         {"net", base + "snet"},
-	"os":          {"os", base + "sos"},
-	"os/signal":   {"signal", base + "ssignal"},
-	"math/rand":   {"rand", base + "srand"},
-	"crypto/rand": {"rand", base + "scrand"},
+	"sync":            {"sync", base + "ssync"},
+	"sync/atomic":     {"atomic", base + "satomic"},
+	"time":            {"time", base + "stime"},
+	"net":             {"net", base + "snet"},
+	"os":              {"os", base + "sos"},
+	"os/signal":       {"signal", base + "ssignal"},
+	"math/rand":       {"rand", base + "srand"},
+	"crypto/rand":     {"rand", base + "scrand"},
+	"runtime/metrics": {"metrics", base + "smetrics"},
 }
 
 type stats struct{ gos, sends, recvs, selects, multisel, maprange, chanrange, unknownRange, files int }
